@@ -53,8 +53,8 @@ type FDriver struct {
 	lastG   uint64
 
 	// Stalled goroutine faults. A site is a stall site of this run when hash(HoldSeed, site) % HoldMod
-	// == 0 (HoldMod 0: none); about every second arrival at a stall site is held there (at most
-	// MaxHolds per run): the goroutine is not resumed until HoldFor of simulated time has passed, or,
+	// == 0 (HoldMod 0: none); the n-th arrival at a stall site is held there with probability 1/(n+2)
+	// (at most three per site and MaxHolds per run): the goroutine is not resumed until HoldFor of simulated time has passed, or,
 	// with HoldFor 0, until nothing else can run. ReleaseAll ends all holds (fault free epilogue).
 	HoldMod              int
 	HoldSeed             uint64
@@ -197,12 +197,14 @@ func (d *FDriver) applyHolds(rs []FWaiter) []FWaiter {
 		if w.Sync && mod > 8 {
 			mod /= 4 // sites in front of a synchronisation operation are four times as likely to be stall sites
 		}
-		if h%mod != 0 || d.Holds >= d.MaxHolds || d.siteHolds[w.Site] >= 2 {
-			continue // not a stall site of this run, or its share is used up (at most two holds per site)
+		if h%mod != 0 || d.Holds >= d.MaxHolds || d.siteHolds[w.Site] >= 3 {
+			continue // not a stall site of this run, or its share is used up (at most three holds per site)
 		}
 		h = (h ^ n ^ 0x2545f4914f6cdd1d) * 1099511628211
 		h ^= h >> 31
-		if h&1 == 0 {
+		// the n-th arrival at a stall site is held with probability 1/(n+2): early arrivals most likely,
+		// later iterations of a loop (bucket 100 of 256) still possible
+		if h%(n+2) == 0 {
 			d.held[w.Ref] = now.Add(d.HoldFor)
 			d.Holds++
 			d.siteHolds[w.Site]++
